@@ -37,6 +37,12 @@ type forkFixture struct {
 }
 
 func buildForkFixture() (*forkFixture, error) {
+	f, _, err := buildForkFixtureChains()
+	return f, err
+}
+
+// buildForkFixtureChains also returns the headers of both branches (base header first for main).
+func buildForkFixtureChains() (*forkFixture, map[string][]*wire.BlockHeader, error) {
 	cfg := headers.DefaultConfig()
 	cfg.MaxBranchDepth = 1000 // the fork starts 155 below the tip of the finished main branch
 	repo := headers.NewRepository(cfg, vstore.New())
@@ -47,14 +53,16 @@ func buildForkFixture() (*forkFixture, error) {
 	repo.MockLatest(ctx, base, baseHeight, work)
 	prev := *base.BlockHash()
 	var mainHashes []bitcoin.Hash32
+	chains := map[string][]*wire.BlockHeader{"main": {base}}
 	var mainTimes []uint32
 	for i := 1; i <= 160; i++ {
 		h := &wire.BlockHeader{Version: 1, PrevBlock: prev, Timestamp: baseTime + uint32(i)*600, Bits: limit, Nonce: uint32(i)}
 		if err := repo.ProcessHeader(ctx, h); err != nil {
-			return nil, errors.Wrapf(err, "main %d", i)
+			return nil, nil, errors.Wrapf(err, "main %d", i)
 		}
 		prev = *h.BlockHash()
 		mainHashes = append(mainHashes, prev)
+		chains["main"] = append(chains["main"], h)
 		mainTimes = append(mainTimes, h.Timestamp)
 	}
 	// fork after main header 5, 152 headers 300 s apart
@@ -65,15 +73,16 @@ func buildForkFixture() (*forkFixture, error) {
 		t += 300
 		h := &wire.BlockHeader{Version: 1, PrevBlock: prev, Timestamp: t, Bits: limit, Nonce: uint32(1000 + i)}
 		if err := repo.ProcessHeader(ctx, h); err != nil {
-			return nil, errors.Wrapf(err, "fork %d", i)
+			return nil, nil, errors.Wrapf(err, "fork %d", i)
 		}
 		prev = *h.BlockHash()
 		tip = h
+		chains["fork"] = append(chains["fork"], h)
 	}
 	if repo.Height() != baseHeight+160 {
-		return nil, fmt.Errorf("main branch is not the most-work branch (height %d)", repo.Height())
+		return nil, nil, fmt.Errorf("main branch is not the most-work branch (height %d)", repo.Height())
 	}
-	return &forkFixture{repo: repo, forkTip: tip, height: baseHeight + 5 + 153}, nil
+	return &forkFixture{repo: repo, forkTip: tip, height: baseHeight + 5 + 153}, chains, nil
 }
 
 func forkCandidate(f *forkFixture, ts, nonce uint32) *wire.BlockHeader {
